@@ -489,7 +489,7 @@ class C09(Suite):
     def cases(self, tier, rng):
         for c in self.pair_cases():
             yield c
-        n = 34 if tier == "quick" else 320
+        n = 34 if tier == "quick" else 200
         for _ in range(n):
             yield self.rand_case(rng, tier)
 
@@ -1089,9 +1089,11 @@ class C09(Suite):
         sw = sum(1 for a, b in zip(xs, xs[1:]) if a[1] != b[1])
         swb = "0" if not xs else ("<25%" if sw * 4 < len(xs) else ("<75%" if sw * 4 < 3 * len(xs) else ">=75%"))
         self._stats["requests"] = self._stats.get("requests", 0) + reqs
-        return (f"sessions={n} bundles={'y' if any(fr['op'] == 'mu' for s in case['sessions'] for fr in s['frames']) else 'n'}"
+        kind = "pairs" if len(case["tags"]) == 1 and case["tags"][0]["len"] == 6 and n == 2 else "random"
+        fz = "on" if (case.get("fuzz") or case.get("fuzz_store")) else "off"
+        return (f"{kind} sessions={n} si={case['si']:g} fuzz={fz}"
                 f" chaos={'y' if any(s.get('chaos') for s in case['sessions']) else 'n'}"
-                f" si={case['si']:g} fuzz={case.get('fuzz', 0):g}/{case.get('fuzz_store', 0):g} access-order-switches={swb}")
+                f" access-order-switches={swb}")
 
     def shrink(self, case):
         ss = case["sessions"]
